@@ -37,7 +37,7 @@ class EngineHammer(EngineC):
     """the drain-and-abort protocol (Model/Drain.lean) on the real closeConns / abortPending / accept0 / enroll: two
     goroutines per round, many rounds with a sweeping start offset; the model predicts that nothing is stranded"""
     suffix = "-hm"
-    ncases = (3, 24)
+    ncases = (4, 32)
 
     def gen_args(self, tier, seed):
         n = self.ncases[0] if tier == "quick" else self.ncases[1]
